@@ -107,6 +107,8 @@ EXTRA = {
                           '<r><i><a>x</a></i></r>']),
     'date-list-fixed': ('<xs:schema {XS}><xs:simpleType name="DL"><xs:list itemType="xs:date"/></xs:simpleType><xs:element name="e" type="DL" fixed="2000-01-01Z 2000-01-02Z"/></xs:schema>',
                         ['<e>2000-01-01Z 2000-01-02Z</e>', '<e>2000-01-01Z   2000-01-02Z</e>', '<e>2000-01-01Z</e>', '<e/>']),
+    'string-fixed': ('<xs:schema {XS}><xs:element name="r"><xs:complexType><xs:sequence><xs:element name="k" type="xs:token" fixed="article"/><xs:element name="u" type="xs:anyURI" fixed="urn:x" minOccurs="0"/></xs:sequence></xs:complexType></xs:element></xs:schema>',
+                     ['<r><k>article</k></r>', '<r><k>service</k></r>', '<r><k> article </k></r>', '<r><k/></r>', '<r><k>article</k><u>urn:y</u></r>', '<r><k>articles</k><u>urn:x</u></r>']),
     'simple-fixed': ('<xs:schema {XS}><xs:element name="f" type="xs:decimal" fixed="1.0"/></xs:schema>', ['<f>1</f>', '<f/>', '<f> 1.00 </f>', '<f>2</f>', '<f> </f>']),
 }
 XS = 'xmlns:xs="http://www.w3.org/2001/XMLSchema"'
